@@ -71,9 +71,12 @@ def tweak_strategy():
     })
     return st.one_of(
         st.tuples(st.just("fixing_duration"), i, i, small),
+        # not ARP: it is the simulator's layer-2 pseudo port; software listening there is handed raw ARP packets, which
+        # only the ARP service can parse (DatabaseService.receive answers them -> AttributeError in the peer's ARP; that
+        # is payload handling, C13's subject, see C20-NOTES "observations outside C20")
         st.tuples(st.just("listen_on_ports"), i, i,
-                  st.lists(st.one_of(st.sampled_from(PORT_NAMES), st.sampled_from([631, 8080, 445])), min_size=1,
-                           max_size=3)),
+                  st.lists(st.one_of(st.sampled_from([p for p in PORT_NAMES if p != "ARP"]),
+                                     st.sampled_from([631, 8080, 445])), min_size=1, max_size=3)),
         st.tuples(st.just("defaults"), st.sampled_from(DEFAULT_KEYS), small, st.sampled_from(["top", "top", "simulation"])),
         st.tuples(st.just("acl_rule"), i, st.integers(0, 5), st.integers(0, 23), rule),
         st.tuples(st.just("route"), i, ipv, st.sampled_from([None, "255.255.255.0", "255.255.255.240"]), ipv,
